@@ -1,6 +1,7 @@
 package vh
 
 import (
+	"os"
 	"bytes"
 	"fmt"
 )
@@ -814,6 +815,7 @@ func drivePrimSweep(c *DriverCtx) error {
 		extra = append(extra, 5000, 6000, 6144, 7000, 8000)
 		extraBig = append(extraBig, 10000, 12288, 20000, 30000, 50000, 60000)
 	}
+	light := os.Getenv("VERIF_SWEEP_LIGHT") != ""
 	for fi, f := range fams {
 		for _, cfg := range []struct {
 			pw int
@@ -839,6 +841,21 @@ func drivePrimSweep(c *DriverCtx) error {
 				a["pw"], a["le"] = cfg.pw, cfg.le
 				b := fmt.Sprintf("b%d", n%50)
 				scalar := map[string]any{"v": []int{1, 2, 3, 4, 5, 6, 7, 8}, "ek": "u64", "le": cfg.le}
+				if light {
+					// write and read back only (byte order and agreement with the pinned rendering; the cuts are C11's)
+					if n > 600 && n%5 != 0 && n%256 > 1 {
+						continue
+					}
+					ops = append(ops, Op{Op: "reset", B: b}, Op{Op: "prim", B: b, Fn: f.wfn, Args: a, Tag: "sweep"},
+						Op{Op: "prim", B: b, Fn: f.rfn, Args: a, Tag: "read-back"})
+					if len(ops) >= 250 {
+						if err := c.Run(ops); err != nil {
+							return err
+						}
+						ops = []Op{}
+					}
+					continue
+				}
 				ops = append(ops, Op{Op: "reset", B: b}, Op{Op: "prim", B: b, Fn: f.wfn, Args: a, Tag: "sweep"},
 					Op{Op: "cut", B: b + "c", From: b, K: -1 - n%4, Tag: "all-but-the-last-bytes"}, Op{Op: "prim", B: b + "c", Fn: f.rfn, Args: a, Tag: "truncated"},
 					// the same followed by a further field, cut inside that field: the two reads together must not succeed
